@@ -5,6 +5,7 @@ import (
 	"bytes"
 	"io"
 
+	"github.com/pyroscope-io/pyroscope/pkg/util/serialization"
 	"github.com/pyroscope-io/pyroscope/pkg/util/varint"
 )
 
@@ -55,8 +56,10 @@ func Deserialize(r io.Reader) (*Trie, error) {
 		// if err == io.EOF {
 		// 	return t, nil
 		// }
-		nameBuf := make([]byte, nameLen) // TODO: there are better ways to do this?
-		_, err = io.ReadAtLeast(br, nameBuf, int(nameLen))
+		if err != nil {
+			return nil, err
+		}
+		nameBuf, err := serialization.ReadBytes(br, nameLen)
 		// log.Debug(n, len(parents))
 		// log.Debugf("%d", nameLen, string(nameBuf), n)
 		if err != nil {
